@@ -110,10 +110,19 @@ def run(ctx):
     ctx.mc(SPEC_DIR, "MCThreadSched", "MC.cfg", timeout=1500, xmx="8g", required_actions=req)
     ctx.mc(SPEC_DIR, "MCThreadSched", "MC2.cfg", timeout=1500, xmx="8g", required_actions=req)
     ctx.mc(SPEC_DIR, "MCThreadSched", "MC_live.cfg", timeout=1500, xmx="8g", coverage=False)
+    # the quiescence rule at design level: with a clock that only advances while everybody is blocked (QuietClock) no due
+    # task is waiting at a quiescent moment, for every interleaving; with a free clock the same invariant is refuted
+    # (why ThreadSchedAbs!Idle only judges executions whose clock never jumped under a runnable thread)
+    ctx.mc(SPEC_DIR, "MCThreadSched", "MC_quiet.cfg", timeout=1500, xmx="8g", required_actions=["ThreadSched!C_Sleep", "ThreadSched!C_Wake"])
     # self-test of the model (not a verdict): the pinned, unrepaired algorithm must violate ExactlyOnce in the model
     from vlib import tlc as _tlc
     r = _tlc.run_tlc(SPEC_DIR, "MCThreadSched", "MC_nofix.cfg", ctx.outdir, timeout=600, xmx="4g")
     ctx.extra["model_of_unrepaired_algorithm_violates"] = r.violated
+    r2 = _tlc.run_tlc(SPEC_DIR, "MCThreadSched", "MC_quiet_freeclock.cfg", ctx.outdir, timeout=600, xmx="4g")
+    if "NoDueTaskWhenQuiet" not in r2.violated:
+        from vlib.common import CheckError
+        raise CheckError("MODEL-BROKEN (sensitivity): NoDueTaskWhenQuiet holds although the clock may jump under runnable threads")
+    ctx.extra["quiescence_rule_needs_quiet_clock"] = True
     rng = random.Random(ctx.seed)
     blocks = []
     budget, bound = (350, 2) if not thorough else (6000, 3)
